@@ -9,6 +9,7 @@ See the :mod:`~neuroglancer_scripts.accessor` module for a description of the
 API.
 """
 
+import errno
 import gzip
 import os
 import pathlib
@@ -95,17 +96,8 @@ class FileAccessor(neuroglancer_scripts.accessor.Accessor):
         if ".." in file_path.relative_to(self.base_path).parts:
             raise ValueError("only relative paths pointing under base_path "
                              "are accepted")
-        mode = "wb" if overwrite else "xb"
         try:
-            os.makedirs(str(file_path.parent), exist_ok=True)
-            if self.gzip and mime_type not in NO_COMPRESS_MIME_TYPES:
-                with gzip.open(
-                        str(file_path.with_name(file_path.name + ".gz")),
-                        mode, compresslevel=self.compresslevel) as f:
-                    f.write(buf)
-            else:
-                with file_path.open(mode) as f:
-                    f.write(buf)
+            self._store(file_path, buf, mime_type, overwrite)
         except OSError as exc:
             raise DataAccessError(f"Error storing {file_path}: {exc}"
                                   ) from exc
@@ -140,22 +132,43 @@ class FileAccessor(neuroglancer_scripts.accessor.Accessor):
                     mime_type="application/octet-stream",
                     overwrite=True):
         chunk_path = self._chunk_path(key, chunk_coords)
-        mode = "wb" if overwrite else "xb"
         try:
-            os.makedirs(str(chunk_path.parent), exist_ok=True)
-            if self.gzip and mime_type not in NO_COMPRESS_MIME_TYPES:
-                with gzip.open(
-                        str(chunk_path.with_name(chunk_path.name + ".gz")),
-                        mode, compresslevel=self.compresslevel) as f:
-                    f.write(buf)
-            else:
-                with chunk_path.open(mode) as f:
-                    f.write(buf)
+            self._store(chunk_path, buf, mime_type, overwrite)
         except OSError as exc:
             raise DataAccessError(
                 "Error storing chunk "
                 f"{self._flat_chunk_basename(key, chunk_coords)} in "
                 f"{self.base_path}: {exc}" ) from exc
+
+    def _store(self, file_path, buf, mime_type, overwrite):
+        """Write a file, gzip-compressed (``.gz`` suffix) if applicable.
+
+        The same name may have been stored before in the other form (plain
+        instead of ``.gz`` or vice versa, if it was stored with another MIME
+        type). That sibling counts as the existing file: it prevents storing
+        without ``overwrite``, and it is removed once the new contents are
+        written, otherwise it could shadow them when fetching.
+        """
+        gz_path = file_path.with_name(file_path.name + ".gz")
+        if self.gzip and mime_type not in NO_COMPRESS_MIME_TYPES:
+            target_path, sibling_path = gz_path, file_path
+        else:
+            target_path, sibling_path = file_path, gz_path
+        mode = "wb" if overwrite else "xb"
+        os.makedirs(str(file_path.parent), exist_ok=True)
+        sibling_exists = sibling_path.is_file()
+        if sibling_exists and not overwrite:
+            raise FileExistsError(errno.EEXIST, os.strerror(errno.EEXIST),
+                                  str(sibling_path))
+        if target_path is gz_path:
+            with gzip.open(str(gz_path), mode,
+                           compresslevel=self.compresslevel) as f:
+                f.write(buf)
+        else:
+            with file_path.open(mode) as f:
+                f.write(buf)
+        if sibling_exists:
+            sibling_path.unlink()
 
     def _chunk_path(self, key, chunk_coords, pattern=None):
         if pattern is None:
